@@ -96,11 +96,12 @@ def run(ck):
     align = p.lookup_method(eng, "align", None)
     if align is None:
         raise AnalysisError("AlignerEngine.align not found")
-    rets = [pa for pa in explore(ck, align) if pa.outcome == "return"]
-    if len(rets) != 1:
-        raise AnalysisError(f"{align.where}: AlignerEngine.align expected to be straight-line")
-    v = rets[0].value
-    w = where(align, rets[0].node)
+    from ..rules.common import merged_return
+    v, ret0 = merged_return(ck, align)          # several return paths are folded into one conditional term
+    # a value that depends on a condition (e.g. labels taken from a cache on one path) is pushed inside the common shape
+    from ..rules.common import push_select_inside
+    v = push_select_inside(v)
+    w = where(align, ret0.node)
     d = self_attr("maxDistance")
     ap = [V(pp.name) for pp in align.call_params()]
     if len(ap) < 5:
